@@ -12,7 +12,7 @@ use crate::simkit::{CheckDef, Ctx, Rng, RunReport, Tier, sim_runtime};
 use saorsa_core::adaptive::{EigenTrustEngine, NodeStatisticsUpdate, TrustProvider};
 use saorsa_core::peer_record::UserId;
 use serde_json::{Value, json};
-use std::collections::{BTreeMap, HashSet};
+use std::collections::{BTreeMap, BTreeSet, HashSet};
 use std::sync::Arc;
 use std::time::Duration;
 
@@ -155,6 +155,8 @@ pub struct WorldOut {
     pub malformed: Vec<(String, String)>,
     pub max_nodes: usize,
     pub reports: u64,
+    /// pre-trusted nodes the engine holds at the final recomputation (initial set, then add/remove as applied)
+    pub anchors_at_end: BTreeSet<u64>,
 }
 
 fn check_map(
@@ -216,8 +218,8 @@ async fn apply(engine: &Arc<EigenTrustEngine>, op: &Value, n: u64, out: &std::ce
             engine.update_node_stats(&nid(g("node")), stat_update(op["kind"].as_str().unwrap_or(""), g("v"))).await;
             out.borrow_mut().reports += 1;
         }
-        "add_anchor" => engine.add_pre_trusted(nid(g("node"))).await,
-        "rm_anchor" => engine.remove_pre_trusted(&nid(g("node"))).await,
+        "add_anchor" => { engine.add_pre_trusted(nid(g("node"))).await; out.borrow_mut().anchors_at_end.insert(g("node")); }
+        "rm_anchor" => { engine.remove_pre_trusted(&nid(g("node"))).await; out.borrow_mut().anchors_at_end.remove(&g("node")); }
         "tp_remove" => TrustProvider::remove_node(&**engine, &nid(g("node"))),
         "tp_update" => {
             TrustProvider::update_trust(&**engine, &nid(g("from")), &nid(g("to")), op["ok"].as_bool().unwrap_or(true));
@@ -251,6 +253,7 @@ pub fn run_world(sc: &Value, extra: Option<(usize, Value)>, log: bool) -> WorldO
     let background = sc["background"].as_bool().unwrap_or(false);
     let rt = sim_runtime(seed);
     let out = std::rc::Rc::new(std::cell::RefCell::new(WorldOut::default()));
+    out.borrow_mut().anchors_at_end = sc["anchors"].as_array().map(|a| a.iter().map(|v| v.as_u64().unwrap_or(0)).collect()).unwrap_or_default();
     let out2 = out.clone();
     let local = tokio::task::LocalSet::new();
     local.block_on(&rt, async move {
@@ -359,8 +362,8 @@ fn execute(sc: &Value) -> RunReport {
     let with = c.final_map.get(&p).copied();
     let had_stats_before = sc["ops"].as_array().map(|o| o.iter().any(|x| x["op"] == "stats" && x["node"].as_u64() == Some(p))).unwrap_or(false);
     let known_before = base.is_some();
-    let anchored = sc["anchors"].as_array().map(|a| !a.is_empty()).unwrap_or(false)
-        || sc["ops"].as_array().map(|o| o.iter().any(|x| x["op"] == "add_anchor")).unwrap_or(false);
+    // the label describes the engine at the final recomputation, not the scenario's vocabulary
+    let anchored = !a.anchors_at_end.is_empty();
     let shape = format!(
         "{}:{}:{}",
         kind,
